@@ -101,7 +101,7 @@ func checkC02(c *Ctx) (int, error) {
 	rng := rand.New(rand.NewSource(c.Seed))
 	num, nEnc := 600, 60
 	if c.Tier == "thorough" {
-		num, nEnc = 6000, 600
+		num, nEnc = 15000, 1500
 	}
 	var streams []namedStream
 	for mb := 1; mb <= 3; mb++ {
@@ -160,7 +160,7 @@ func checkC03(c *Ctx) (int, error) {
 	rng := rand.New(rand.NewSource(c.Seed))
 	num, nMut, nTrunc := 700, 1500, 6
 	if c.Tier == "thorough" {
-		num, nMut, nTrunc = 7000, 30000, 40
+		num, nMut, nTrunc = 15000, 80000, 100
 	}
 	var streams []namedStream
 	kinds := map[string]int{}
@@ -281,7 +281,7 @@ func checkC18(c *Ctx) (int, error) {
 	rng := rand.New(rand.NewSource(c.Seed))
 	num, nEnc, nMut := 300, 40, 600
 	if c.Tier == "thorough" {
-		num, nEnc, nMut = 4000, 400, 12000
+		num, nEnc, nMut = 8000, 800, 30000
 	}
 	var streams []namedStream
 	for _, faulty := range []bool{false, true} {
